@@ -12,6 +12,7 @@ R5 == TLCEval({r \in RingsOf(5) : Hash(r, 1) % (M4 * 40) = 0})
 Close(r) == Append(r, r[1])
 Pairs == TLCEval({<<a, b>> \in R3 \X R4 : (Hash(a, 1) + Hash(b, 1)) % M2R = 0})
 PolyCases == {<< <<r>> >> : r \in R3 \cup R4 \cup R5} \cup {<< <<Close(r)>> >> : r \in R3}
+             \cup {<< << << <<2, 2>>, <<8, 2>>, <<8, 6>>, <<2, 6>> >> >> >>, << << << <<1, 3>>, <<1, 7>>, <<9, 7>>, <<9, 3>>, <<1, 3>> >> >> >>}      \* rectangles (also asked as *Bounds)
              \cup {<< <<p[1], p[2]>> >> : p \in Pairs}                       \* one polygon, two rings (hole or not)
              \cup {<< <<p[1]>>, <<p[2]>> >> : p \in Pairs}                   \* two member polygons
              \cup {<< <<p[1], <<p[2][1], p[2][2]>>>> >> : p \in Pairs}       \* a ring of two vertices is ignored
